@@ -218,8 +218,8 @@ def build_cases(chk, cfgs, thorough):
                 if t == 0:
                     cols = [[-1 - ((i + j) % 2) for i in range(n)] for j in range(nc)]      # every entry negative
                 add("vec", op, dict(p=p, q=q_, k=k, dec=dec, sc=0, cols=cols, ndim=2, flags=_flags(op, cols, p, q_)))
-        for sc in (-3, 3):
-            pick = vs if thorough else rng.sample(vs, max(1, min(len(vs), 2 + len(vs) // 10)))
+        for sc in (-9, -3, 3, 9):       # decimal exponent of the units of the input (and of "length" parameters)
+            pick = vs if (thorough and abs(sc) == 3) else rng.sample(vs, max(1, min(len(vs), 2 + len(vs) // (10 if abs(sc) == 3 else 25))))
             for v in pick:
                 add("vec", op, dict(p=p, q=q_, k=k, dec=dec, sc=sc, cols=[v], ndim=1, flags=_flags(op, [v], p, q_)))
     # per-entry threshold arrays (soft_thresholding's documented ndarray form): every (v, t) as a vector,
@@ -236,8 +236,8 @@ def build_cases(chk, cfgs, thorough):
             pick = [rng.choice(cs) for _ in range(2 + t % 2)]
             add("vec", "l1arr", dict(p=0, q=pick[0]["q"], k=0, dec=False, sc=0, cols=[list(c["v"]) for c in pick],
                                      t=[list(c["t"]) for c in pick], ndim=2, flags={"allneg": False, "hasneg": True}))
-        for sc in (-3, 3):
-            for c in (cs if thorough else rng.sample(cs, min(len(cs), 40 * n))):
+        for sc in (-9, -3, 3, 9):
+            for c in (cs if (thorough and abs(sc) == 3) else rng.sample(cs, min(len(cs), (40 if abs(sc) == 3 else 15) * n))):
                 add("vec", "l1arr", dict(p=0, q=c["q"], k=0, dec=False, sc=sc, cols=[list(c["v"])], t=[list(c["t"])], ndim=1,
                                          flags={"allneg": False, "hasneg": True}))
     for c in mats:
@@ -261,7 +261,7 @@ def run(chk, opts):
     chk.rule = ("every configuration of Prox.tla exported from TLC's design run: %d (operator, parameter, vector in {-2..2}^n, n<=4) "
                 "points as column vectors through the operator and the keyword dispatch, %d closed-form-SVD matrices through "
                 "svd_thresholding/procrustes; plus %d derived events (2-3 column matrices for column-wise operators, inputs scaled "
-                "by 1e-3/1e3; seeded sample in quick, all in thorough); distinct = distinct (op, parameters, input, scale)"
+                "by 1e-3/1e3 and 1e-9/1e9; seeded sample in quick, all in thorough); distinct = distinct (op, parameters, input, scale)"
                 % (nvec, nmat, len(cases) - nvec - nmat))
     for c in cases:
         chk.distinct.add(str({k: v for k, v in c.items() if k not in ("id", "flags")}))
